@@ -91,3 +91,15 @@ __CPROVER_ensures(post_string(self) && __CPROVER_return_value == self)
 RELEASED_IF_LAST(self)
 STRING_FRAME(self)
 ;
+struct String* c_String_prepend_buf(struct String* self, const char* str, usize n)
+__CPROVER_requires(wf_String(self) && n <= NV_MAXSZ && (n == 0 || __CPROVER_r_ok(str, n)))
+__CPROVER_ensures(post_string(self) && __CPROVER_return_value == self)
+RELEASED_IF_LAST(self)
+STRING_FRAME(self)
+;
+struct String* c_String_prepend_str(struct String* self, const struct String* other)
+__CPROVER_requires(wf_String(self) && wf_String(other))
+__CPROVER_ensures(post_string(self) && __CPROVER_return_value == self)
+RELEASED_IF_LAST(self)
+STRING_FRAME(self)
+;
